@@ -73,7 +73,9 @@ Definition with_conn_gen (w : wcshape) (flt : fault) (cf : cfault) (p : prog ret
   match e1 with
   | Normal =>
       let '(res, s) := run flt (seqP (ex pragma_fk) p) (mkSt d r 0) in
-      let x1 := mkCx (x_ev x1) (x_file x1) (match res with Good _ => s_db s | Bad _ => x_work x1 end) (x_closed x1) in
+      (* the open transaction holds what the body wrote before it returned OR RAISED: a commit on an error path would publish the rows of a
+         half-done call *)
+      let x1 := mkCx (x_ev x1) (x_file x1) (s_db s) (x_closed x1) in
       match res with
       | Bad ECrash => (Some (ODied, x_file x1, s_reg s, s_n s), x1)
       | _ =>
